@@ -205,6 +205,10 @@ class _APEv2Data(object):
         if self.footer is not None:
             self.size -= 32
 
+        if self.size < 0:
+            # the footer claims a tag smaller than the footer itself
+            raise APEBadItemError("invalid tag size")
+
     def __fix_brokenness(self, fileobj):
         # Fix broken tags written with PyMusepack.
         if self.header is not None:
